@@ -18,6 +18,7 @@ kind raises `Unsupported`."""
 import ast, os, re
 from lib import common
 from .py2lean import Unsupported, find_func
+from .skelguard import Fn as _Fn, Config, emit
 
 DER_FUNCS = ["encode_constructed", "encode_integer", "encode_bitstring", "encode_octet_string", "encode_oid",
              "encode_sequence", "encode_number", "is_sequence", "remove_constructed", "remove_sequence",
@@ -39,245 +40,11 @@ INT_CALLS = {"str_idx_as_int", "len", "int", "orderlen", "sum"}
 INT_TUPLE_CALLS = {"read_length", "read_number"}
 
 
-def call_name(c):
-    f = c.func
-    if isinstance(f, ast.Name):
-        return f.id
-    if isinstance(f, ast.Attribute):
-        return f.attr
-    return "?"
+CFG = Config(int_params=INT_PARAMS, int_locals=INT_LOCALS, int_calls=INT_CALLS, int_tuple_calls=INT_TUPLE_CALLS)
 
 
-class Fn:
-    def __init__(self, fdef):
-        self.f = fdef
-        self.name = fdef.name
-        self.ints = set(INT_PARAMS.get(fdef.name, [])) | set(INT_LOCALS.get(fdef.name, []))
-        self.skel = []
-        self.defs = []          # (lean name, params, type, body)
-        self.count = {}
-        self.find_ints()
-        self.walk(fdef.body, 0)
-
-    # ---- which names hold ints ----
-    def find_ints(self):
-        changed = True
-        while changed:
-            changed = False
-            for n in ast.walk(self.f):
-                new = []
-                if isinstance(n, ast.Assign) and len(n.targets) == 1:
-                    t, v = n.targets[0], n.value
-                    if isinstance(t, ast.Name) and self.is_int(v):
-                        new.append(t.id)
-                    if isinstance(t, ast.Tuple) and isinstance(v, ast.Call) and call_name(v) in INT_TUPLE_CALLS:
-                        new += [x.id for x in t.elts if isinstance(x, ast.Name)]
-                if isinstance(n, ast.AugAssign) and isinstance(n.target, ast.Name) and self.is_int(n.value) \
-                        and n.target.id in self.ints:
-                    pass
-                for x in new:
-                    if x not in self.ints:
-                        self.ints.add(x)
-                        changed = True
-
-    def is_int(self, e):
-        """pure integer expression?"""
-        if isinstance(e, ast.Constant):
-            return isinstance(e.value, int) and not isinstance(e.value, bool)
-        if isinstance(e, ast.Name):
-            return e.id in self.ints
-        if isinstance(e, ast.BinOp):
-            return isinstance(e.op, (ast.Add, ast.Sub, ast.Mult, ast.FloorDiv, ast.Mod, ast.BitAnd, ast.BitOr,
-                                     ast.LShift, ast.RShift, ast.Pow)) and self.is_int(e.left) and self.is_int(e.right)
-        if isinstance(e, ast.UnaryOp) and isinstance(e.op, ast.USub):
-            return self.is_int(e.operand)
-        if isinstance(e, ast.Call) and call_name(e) in INT_CALLS:
-            return True
-        return False
-
-    def is_cond(self, e):
-        if isinstance(e, ast.UnaryOp) and isinstance(e.op, ast.Not):
-            return self.is_cond(e.operand)
-        if isinstance(e, ast.BoolOp):
-            return all(self.is_cond(v) for v in e.values)
-        if isinstance(e, ast.Compare):
-            return all(isinstance(o, (ast.Eq, ast.NotEq, ast.Lt, ast.LtE, ast.Gt, ast.GtE)) for o in e.ops) \
-                and all(self.is_int(x) for x in [e.left] + e.comparators)
-        return self.is_int(e)
-
-    def trivial(self, e):
-        return isinstance(e, (ast.Name, ast.Constant)) or (isinstance(e, ast.Call))
-
-    # ---- expressions -> Lean over Int ----
-    def expr(self, e, params):
-        if isinstance(e, ast.Constant):
-            return "(%d : Int)" % e.value
-        if isinstance(e, ast.Name):
-            if e.id not in params:
-                params.append(e.id)
-            return e.id
-        if isinstance(e, ast.Call):
-            cn = call_name(e)
-            if cn == "len" and len(e.args) == 1:
-                p = "len_" + re.sub(r"\W+", "_", ast.unparse(e.args[0])).strip("_")
-            elif cn == "str_idx_as_int" and len(e.args) == 2 and isinstance(e.args[0], ast.Name) \
-                    and isinstance(e.args[1], ast.Constant):
-                p = "%s_at_%s" % (e.args[0].id, str(e.args[1].value).replace("-", "m"))
-            else:
-                raise Unsupported("call %s inside an integer expression of %s" % (ast.unparse(e), self.name))
-            if p not in params:
-                params.append(p)
-            return p
-        if isinstance(e, ast.UnaryOp) and isinstance(e.op, ast.USub):
-            return "(- %s)" % self.expr(e.operand, params)
-        if isinstance(e, ast.BinOp):
-            l = self.expr(e.left, params)
-            if isinstance(e.op, (ast.LShift, ast.RShift, ast.Pow)):
-                if isinstance(e.op, ast.Pow):
-                    if isinstance(e.left, ast.Constant) and e.left.value == 2:
-                        return "((2 : Int) ^ (%s).toNat)" % self.expr(e.right, params)
-                    raise Unsupported("power with base other than 2 in %s" % self.name)
-                if not (isinstance(e.right, ast.Constant) and isinstance(e.right.value, int) and e.right.value >= 0):
-                    raise Unsupported("shift by a non-literal in %s" % self.name)
-                k = e.right.value
-                return ("(%s * (2 : Int) ^ %d)" if isinstance(e.op, ast.LShift) else "(Int.fdiv %s ((2 : Int) ^ %d))") % (l, k)
-            r = self.expr(e.right, params)
-            fmt = {ast.Add: "(%s + %s)", ast.Sub: "(%s - %s)", ast.Mult: "(%s * %s)", ast.FloorDiv: "(Int.fdiv %s %s)",
-                   ast.Mod: "(Int.fmod %s %s)", ast.BitAnd: "(pand %s %s)", ast.BitOr: "(por %s %s)"}[type(e.op)]
-            return fmt % (l, r)
-        raise Unsupported("expression %s in %s" % (ast.unparse(e), self.name))
-
-    def cond(self, e, params):
-        if isinstance(e, ast.UnaryOp) and isinstance(e.op, ast.Not):
-            return "(!%s)" % self.cond(e.operand, params)
-        if isinstance(e, ast.BoolOp):
-            op = " && " if isinstance(e.op, ast.And) else " || "
-            return "(" + op.join(self.cond(v, params) for v in e.values) + ")"
-        if isinstance(e, ast.Compare):
-            parts, left = [], e.left
-            for o, right in zip(e.ops, e.comparators):
-                l, r = self.expr(left, params), self.expr(right, params)
-                t = {ast.Eq: "decide (%s = %s)", ast.NotEq: "decide (%s ≠ %s)", ast.Lt: "decide (%s < %s)",
-                     ast.LtE: "decide (%s ≤ %s)", ast.Gt: "decide (%s > %s)", ast.GtE: "decide (%s ≥ %s)"}[type(o)]
-                parts.append(t % (l, r))
-                left = right
-            return "(" + " && ".join(parts) + ")"
-        return "(decide (%s ≠ 0))" % self.expr(e, params)
-
-    def emit_def(self, kind, e, boolean):
-        k = self.count.get(kind, 0)
-        self.count[kind] = k + 1
-        if boolean:
-            if not self.is_cond(e) or (self.trivial(e)):
-                return
-        else:
-            if not self.is_int(e) or self.trivial(e):
-                return
-        params = []
-        name = "%s_%s%d" % (self.name, kind, k)
-        try:
-            body = self.cond(e, params) if boolean else self.expr(e, params)
-        except Unsupported as ex:
-            # no definition is emitted: the tie theorem that names it (if any) stops compiling, which breaks exactly
-            # the property that depends on this expression; the skeleton still records the source text
-            self.defs.append((name, None, None, str(ex), ast.unparse(e)))
-            return
-        self.defs.append((name, params, "Bool" if boolean else "Int", body, ast.unparse(e)))
-
-    def subexprs(self, node, top_done=()):
-        """maximal non-trivial integer sub-expressions of `node` that were not already emitted as a whole"""
-        def go(e):
-            if isinstance(e, ast.expr) and e not in top_done and self.is_int(e) and not self.trivial(e):
-                self.emit_def("e", e, False)
-                return
-            if isinstance(e, ast.expr) and e not in top_done and isinstance(e, (ast.Compare, ast.BoolOp)) and self.is_cond(e):
-                return
-            for c in ast.iter_child_nodes(e):
-                go(c)
-        go(node)
-
-    # ---- statements ----
-    def walk(self, stmts, depth):
-        pre = "." * depth
-        for s in stmts:
-            if isinstance(s, ast.Expr) and isinstance(s.value, ast.Constant):
-                continue
-            if isinstance(s, ast.If):
-                self.skel.append(pre + "if " + ast.unparse(s.test))
-                self.emit_def("if", s.test, True)
-                if not self.is_cond(s.test):
-                    self.subexprs(s.test)
-                self.walk(s.body, depth + 1)
-                if s.orelse:
-                    self.skel.append(pre + "else")
-                    self.walk(s.orelse, depth + 1)
-            elif isinstance(s, ast.While):
-                self.skel.append(pre + "while " + ast.unparse(s.test))
-                self.emit_def("while", s.test, True)
-                self.walk(s.body, depth + 1)
-            elif isinstance(s, ast.Assign):
-                self.skel.append(pre + ast.unparse(s.targets[0]) + " = " + ast.unparse(s.value))
-                self.emit_def("let", s.value, False)
-                if not self.is_int(s.value):
-                    self.subexprs(s.value)
-            elif isinstance(s, ast.AugAssign):
-                self.skel.append(pre + ast.unparse(s))
-                fake = ast.BinOp(left=s.target if isinstance(s.target, ast.Name) else ast.Name(id="_"), op=s.op, right=s.value)
-                if isinstance(s.target, ast.Name):
-                    self.emit_def("let", fake, False)
-                else:
-                    self.count["let"] = self.count.get("let", 0) + 1
-            elif isinstance(s, ast.Return):
-                self.skel.append(pre + "return " + (ast.unparse(s.value) if s.value is not None else ""))
-                vals = s.value.elts if isinstance(s.value, ast.Tuple) else [s.value]
-                for v in vals:
-                    if v is not None:
-                        self.emit_def("ret", v, False)
-                        if not self.is_int(v):
-                            self.subexprs(v)
-            elif isinstance(s, ast.Raise):
-                exc = s.exc
-                cls = call_name(exc) if isinstance(exc, ast.Call) else ast.unparse(exc)
-                self.skel.append(pre + "raise " + cls)
-            elif isinstance(s, ast.Assert):
-                self.skel.append(pre + "assert " + ast.unparse(s.test))
-                self.emit_def("assert", s.test, True)
-            elif isinstance(s, ast.Break):
-                self.skel.append(pre + "break")
-            elif isinstance(s, ast.Expr) and isinstance(s.value, ast.Call):
-                if ast.unparse(s.value.func) == "warnings.warn":
-                    self.skel.append(pre + "call warnings.warn")
-                else:
-                    self.skel.append(pre + "call " + ast.unparse(s.value))
-                    self.subexprs(s.value)
-            else:
-                raise Unsupported("statement %s in %s" % (type(s).__name__, self.name))
-
-
-def lean_str(s):
-    return '"' + s.replace("\\", "\\\\").replace('"', '\\"') + '"'
-
-
-def emit(ns, fns, header):
-    out = ["-- GENERATED by harness/translate/gen_der.py; do not edit. " + header, "namespace " + ns, "",
-           "/-- Python `a & b` on non-negative integers (every use below is on bytes, lengths and digits ≥ 0) -/",
-           "def pand (a b : Int) : Int := ((a.toNat &&& b.toNat : Nat) : Int)",
-           "/-- Python `a | b` on non-negative integers -/",
-           "def por (a b : Int) : Int := ((a.toNat ||| b.toNat : Nat) : Int)", ""]
-    for fn in fns:
-        out.append("/-- control skeleton of `%s` -/" % fn.name)
-        out.append("def skel_%s : List String := [" % fn.name)
-        out.append(",\n".join("  " + lean_str(x) for x in fn.skel))
-        out.append("]\n")
-        for (name, params, ty, body, src) in fn.defs:
-            if params is None:
-                out.append("-- UNTRANSLATABLE %s: `%s` (%s)\n" % (name, src, body))
-                continue
-            out.append("/-- `%s` -/" % src.replace("-/", "- /"))
-            sig = (" (%s : Int)" % " ".join(params)) if params else ""
-            out.append("def %s%s : %s := %s\n" % (name, sig, ty, body))
-    out.append("end " + ns)
-    return "\n".join(out) + "\n"
+def Fn(fdef):
+    return _Fn(fdef, CFG)
 
 
 def generate():
